@@ -276,24 +276,26 @@ def unbounded_lemmas(model, module, invs, neg_edit):
     a lemma it refutes means the specification contradicts itself: the run is broken."""
     res = {}
     path = os.path.join(SPEC, module + ".tla")
-    for inv in invs:
-        res[inv] = apalache(path, inv)
-        if res[inv] == "violated":
-            raise Broken("Apalache refutes %s!%s: the specification is inconsistent" % (module, inv))
     d = scratch("apaneg")
     try:
         with open(path) as f:
             txt = f.read()
-        old, new, inv = neg_edit
+        old, new, neg_inv = neg_edit
         if old not in txt:
             raise Broken("negative control edit does not apply to %s" % module)
         neg = os.path.join(d, module + "Neg.tla")
         with open(neg, "w") as f:
             f.write(txt.replace(old, new).replace("MODULE " + module, "MODULE " + module + "Neg"))
-        r = apalache(neg, inv)
-        if r == "proved":
-            raise Broken("Apalache accepts the deliberately wrong variant of %s!%s: the lemma is vacuous" % (module, inv))
-        res["negative_control"] = {"edit": "%s -> %s" % (old.strip()[:60], new.strip()[:60]), "result": r}
+        jobs = [(path, inv) for inv in invs] + [(neg, neg_inv)]
+        with cf.ThreadPoolExecutor(len(jobs)) as ex:
+            outs = list(ex.map(lambda j: apalache(*j), jobs))
+        for inv, r in zip(invs, outs):
+            res[inv] = r
+            if r == "violated":
+                raise Broken("Apalache refutes %s!%s: the specification is inconsistent" % (module, inv))
+        if outs[-1] == "proved":
+            raise Broken("Apalache accepts the deliberately wrong variant of %s!%s: the lemma is vacuous" % (module, neg_inv))
+        res["negative_control"] = {"edit": "%s -> %s" % (old.strip()[:60], new.strip()[:60]), "result": outs[-1]}
     finally:
         shutil.rmtree(d, ignore_errors=True)
     model.extra_facts = getattr(model, "extra_facts", {})
